@@ -88,6 +88,7 @@ type Reporter struct {
 	violations map[string][]Finding
 	nviol      int64
 	diverged   []string
+	ntCount    int
 }
 
 // New creates a reporter for property prop.
@@ -146,6 +147,14 @@ func (r *Reporter) AddEvaluations(n int) { r.mu.Lock(); r.evaluations += int64(n
 func (r *Reporter) Nontrivial(id string) {
 	r.mu.Lock()
 	r.nontrivial[id] = struct{}{}
+	r.mu.Unlock()
+}
+
+// SetNontrivialCount records a measured count of distinct non-trivial cases for
+// checks that count them in bulk (too many to keep as ids).
+func (r *Reporter) SetNontrivialCount(n int) {
+	r.mu.Lock()
+	r.ntCount = n
 	r.mu.Unlock()
 }
 
@@ -284,7 +293,7 @@ func (r *Reporter) Finish() int {
 	cov["transitions"] = r.transitions
 	cov["traces_validated_against_impl"] = r.validated
 	cov["evaluations"] = r.evaluations
-	cov["distinct_nontrivial"] = len(r.nontrivial)
+	cov["distinct_nontrivial"] = len(r.nontrivial) + r.ntCount
 	cov["rule"] = r.rule
 	if r.samples == nil {
 		r.samples = []any{}
@@ -334,7 +343,7 @@ func (r *Reporter) Finish() int {
 		fmt.Fprintln(os.Stderr, "cannot write evidence:", err)
 	}
 	fmt.Printf("%s %s: states=%d transitions=%d validated=%d evaluations=%d nontrivial=%d outcomes=%d known=%d violations=%d exhaustive=%v wall=%.1fs\n",
-		r.Prop, r.Tier, r.states, r.transitions, r.validated, r.evaluations, len(r.nontrivial), len(r.outcomes), len(r.knownHits), r.nviol, r.exhaustive, wall)
+		r.Prop, r.Tier, r.states, r.transitions, r.validated, r.evaluations, len(r.nontrivial)+r.ntCount, len(r.outcomes), len(r.knownHits), r.nviol, r.exhaustive, wall)
 	for _, l := range lines {
 		fmt.Println(l)
 	}
